@@ -1291,7 +1291,8 @@ fn scenarios(prop: &str, thorough: bool) -> Vec<Scen> {
                 v.extend(extra);
             }
             // fewer samples than basis functions (wide basis matrix: thin decompositions have N columns, not M)
-            for (fam, n) in [(Family::Exp2Off, 2usize), (Family::Exp3, 2), (Family::Exp3, 1), (Family::GenProd { m: 3, p: 2, inc: [[true, true, false], [false, true, false], [false, false, false]] }, 2)] {
+            // ... and exactly as many (square basis matrix; the alphabets contain rank-deficient states, e.g. equal decay times: wave w)
+            for (fam, n) in [(Family::Exp2Off, 3usize), (Family::Exp3, 3), (Family::Exp1Off, 2), (Family::Exp2Off, 2), (Family::Exp3, 2), (Family::Exp3, 1), (Family::GenProd { m: 3, p: 2, inc: [[true, true, false], [false, true, false], [false, false, false]] }, 2)] {
                 for f32_ in [false, true] {
                     for par in [false, true] {
                         if prop == "C11" && !par {
